@@ -166,6 +166,7 @@ struct Fiber {
   uint64_t prio = 0;                  // PCT
   void *ts = nullptr;                 // tsan fiber
   int shim_depth = 0;                 // tsan: nesting of simulator code (accesses ignored)
+  std::vector<char> tls;              // this thread's copy of lbzip2's thread-local storage (empty unless a change introduces TLS)
   uint64_t stalled_until = 0;         // stall fault: not scheduled before this decision step while anything else can run
 };
 
@@ -316,6 +317,26 @@ sim_tramp:
   .size sim_tramp,.-sim_tramp
 )");
 
+// Thread-local storage of the lbzip2 objects.  All fibers share one OS thread and therefore one TLS block; the part of it that
+// belongs to lbzip2 (delimited by the marker objects sim/tls_a.c, sim/tls_z.c) is saved and restored at every switch, starts from
+// the pristine image in every new thread and dies with it - like real TLS.  The unchanged lbzip2 has no TLS (empty ranges, no
+// cost); a change that introduces `__thread` state must not be misrepresented (seeded change C13-3).
+extern "C" { extern __thread char sim_tls_d_begin, sim_tls_d_end, sim_tls_b_begin, sim_tls_b_end; }
+static char *g_tls_d, *g_tls_b;          // start of lbzip2's .tdata / .tbss part in this OS thread's TLS block
+static size_t g_tls_dn, g_tls_bn;
+static std::vector<char> g_tls_pristine, g_tls_root;
+static void tls_init() {
+  g_tls_d = &sim_tls_d_begin + 1; g_tls_dn = (size_t)(&sim_tls_d_end - g_tls_d);
+  g_tls_b = &sim_tls_b_begin + 1; g_tls_bn = (size_t)(&sim_tls_b_end - g_tls_b);
+  if ((ptrdiff_t)g_tls_dn < 0 || (ptrdiff_t)g_tls_bn < 0 || g_tls_dn > (1u << 20) || g_tls_bn > (1u << 24)) { fprintf(stderr, "lbzsim: unexpected TLS layout\n"); _exit(3); }
+  g_tls_pristine.resize(g_tls_dn + g_tls_bn);
+  if (g_tls_dn) rawcpy(g_tls_pristine.data(), g_tls_d, g_tls_dn);
+  if (g_tls_bn) rawcpy(g_tls_pristine.data() + g_tls_dn, g_tls_b, g_tls_bn);
+  g_tls_root = g_tls_pristine;
+}
+static inline void tls_save(std::vector<char> &v) { if (v.size() != g_tls_dn + g_tls_bn) v.resize(g_tls_dn + g_tls_bn); if (g_tls_dn) rawcpy(v.data(), g_tls_d, g_tls_dn); if (g_tls_bn) rawcpy(v.data() + g_tls_dn, g_tls_b, g_tls_bn); }
+static inline void tls_load(const std::vector<char> &v) { if (g_tls_dn) rawcpy(g_tls_d, v.data(), g_tls_dn); if (g_tls_bn) rawcpy(g_tls_b, v.data() + g_tls_dn, g_tls_bn); }
+
 __attribute__((unused)) static const void *g_root_bottom;
 __attribute__((unused)) static size_t g_root_size;
 
@@ -326,6 +347,7 @@ static void switch_to(int from, int to, bool dying) {
   void *tsp = to < 0 ? s.root_sp : s.F[to].sp;
   shim_suspend();
   s.cur = to;
+  if (g_tls_dn + g_tls_bn) { tls_save(from < 0 ? g_tls_root : s.F[from].tls); tls_load(to < 0 ? g_tls_root : s.F[to].tls); }
 #ifdef SIM_TSAN
   static int run_token;
   if (from >= 0) TS_REL(&run_token);
@@ -642,6 +664,7 @@ static int new_fiber(void *(*fn)(void *), void *arg, uint64_t mask, int cls) {
     (void)VALGRIND_STACK_REGISTER(st, st + STK);
   }
   f.stack = g_stacks[id];
+  f.tls = g_tls_pristine;
   if (RUNNING_ON_VALGRIND) (void)VALGRIND_MAKE_MEM_UNDEFINED(f.stack, STK);     // a recycled stack still holds the previous run's values
 #ifdef SIM_ASAN
   __asan_unpoison_memory_region(f.stack, STK);
@@ -1370,6 +1393,76 @@ int simw_isatty(int fd) { SHIM;
   return r;
 }
 
+
+// ---- calls the unchanged lbzip2 does not make but a change to it plausibly could (round 2; seeded change C18-3 used
+// pthread_detach).  Anything lbzip2 references that is neither modelled here nor a pure function stops the build
+// (tools/build.sh) instead of silently running against the real kernel.
+int simw_pthread_detach(pthread_t t) { SHIM; int id = (int)t - 1; if (id < 0 || id >= S->nf) return ESRCH; return 0; }   // fibers hold no resources beyond the run
+int simw_pthread_equal(pthread_t a, pthread_t b) { return a == b; }
+int simw_pthread_mutex_init(pthread_mutex_t *m, const pthread_mutexattr_t *a) { SHIM; (void)a; S->mtx[m].owner = -1; return 0; }
+int simw_pthread_mutex_destroy(pthread_mutex_t *m) { SHIM; S->mtx.erase(m); return 0; }
+int simw_pthread_mutex_trylock(pthread_mutex_t *m) { SHIM;
+  point(OP_LOCK, 1);
+  Mutex &M = S->mtx[m];
+  if (M.owner != -1) return EBUSY;
+  M.owner = S->cur;
+  TS_ACQ(m);
+  ev(OP_LOCK, oid(m), 1);
+  return 0;
+}
+int simw_pthread_cond_init(pthread_cond_t *c, const pthread_condattr_t *a) { (void)c; (void)a; return 0; }
+int simw_pthread_cond_destroy(pthread_cond_t *c) { (void)c; return 0; }
+int simw_pthread_attr_init(pthread_attr_t *a) { (void)a; return 0; }
+int simw_pthread_attr_destroy(pthread_attr_t *a) { (void)a; return 0; }
+int simw_pthread_attr_setdetachstate(pthread_attr_t *a, int d) { (void)a; (void)d; return 0; }
+int simw_pthread_attr_setstacksize(pthread_attr_t *a, size_t n) { (void)a; (void)n; return 0; }
+int simw_pthread_kill(pthread_t t, int sig) { SHIM;
+  int id = (int)t - 1;
+  if (id < 0 || id >= S->nf) return ESRCH;
+  if (sig == 0) return 0;
+  if (sig < 1 || sig > 63) return EINVAL;
+  TS_REL(&S->handler[sig]);
+  if (S->F[id].state != ST_DONE) S->F[id].tpend |= BIT(sig);
+  ev(OP_KILL, sig, id + 1);
+  deliver_pending();
+  return 0;
+}
+int simw_raise(int sig) { SHIM; return simw_pthread_kill((pthread_t)(S->cur + 1), sig) ? -1 : 0; }
+int simw_sched_yield(void) { SHIM; point(OP_WAKE, 0); return 0; }
+static void sim_sleep(uint64_t ns) { S->res->sim_ns += ns; S->F[S->cur].stalled_until = S->res->steps + 1 + ns / 1000000; point(OP_WAKE, 1); }   // a sleeping thread is skipped for ~1 decision per ms while others can run
+int simw_nanosleep(const struct timespec *rq, struct timespec *rm) { SHIM; if (rm) { rm->tv_sec = 0; rm->tv_nsec = 0; } if (rq) sim_sleep((uint64_t)rq->tv_sec * 1000000000ull + (uint64_t)rq->tv_nsec); return 0; }
+int simw_usleep(useconds_t us) { SHIM; sim_sleep((uint64_t)us * 1000); return 0; }
+unsigned simw_sleep(unsigned sec) { SHIM; sim_sleep((uint64_t)sec * 1000000000ull); return 0; }
+time_t simw_time(time_t *t) { SHIM; time_t v = (time_t)(1600000000 + S->res->sim_ns / 1000000000ull); if (t) *t = v; return v; }
+int simw_gettimeofday(struct timeval *tv, void *tz) { SHIM; (void)tz; if (tv) { uint64_t ns = S->res->sim_ns; tv->tv_sec = 1600000000 + ns / 1000000000ull; tv->tv_usec = (ns % 1000000000ull) / 1000; } return 0; }
+void simw_exit(int c) { simw__exit(c); }
+void *simw_calloc(size_t n, size_t m) { size_t tot = n * m; if (m && tot / m != n) { errno = ENOMEM; return nullptr; } void *p = simw_malloc(tot); if (p) memset(p, 0, tot); return p; }
+void *simw_realloc(void *p, size_t n) { SHIM;
+  if (!p) return simw_malloc(n);
+  auto it = S->live.find(p);
+  if (it == S->live.end()) return realloc(p, n);     // not ours
+  size_t old = it->second;
+  void *q = simw_malloc(n);
+  if (!q) return nullptr;
+  memcpy(q, p, old < n ? old : n);
+  simw_free(p);
+  return q;
+}
+int simw_fsync(int fd) { SHIM; point(OP_META, 100); if (fd < 0 || (size_t)fd >= S->fds.size() || !S->fds[fd].open) { errno = EBADF; return -1; } return 0; }
+int simw_fdatasync(int fd) { return simw_fsync(fd); }
+int simw_stat64(const char *path, struct stat *st) { SHIM;
+  State &s = *S;
+  point(OP_STAT, 2);
+  int ino = resolve(path, true, nullptr);
+  if (ino == -2) { errno = ELOOP; return -1; }
+  if (ino < 0) { errno = ENOENT; return -1; }
+  fill_stat(s.world.inodes[ino], ino, st);
+  return 0;
+}
+int simw_stat(const char *path, struct stat *st) { return simw_stat64(path, st); }
+int simw_chmod(const char *path, mode_t m) { SHIM; point(OP_META, 101); int ino = resolve(path, true, nullptr); if (ino < 0) { errno = ino == -2 ? ELOOP : ENOENT; return -1; } S->world.inodes[ino].mode = m & 07777; return 0; }
+int simw_chown(const char *path, uid_t u, gid_t g) { SHIM; point(OP_META, 102); int ino = resolve(path, true, nullptr); if (ino < 0) { errno = ino == -2 ? ELOOP : ENOENT; return -1; } Inode &in = S->world.inodes[ino]; if (u != (uid_t)-1) in.uid = u; if (g != (gid_t)-1) in.gid = g; in.mode &= ~06000u; return 0; }
+
 }  // extern "C"
 
 namespace sim {
@@ -1451,6 +1544,7 @@ void init() {
   g_bn = __stop_lbz_bss - __start_lbz_bss;
   g_snap = (char *)malloc(g_dn + 1);
   rawcpy(g_snap, __start_lbz_data, g_dn);
+  tls_init();
 }
 
 Result run(const Plan &plan) {
